@@ -221,6 +221,7 @@ static void run_exec(const Exec& e, vr::Ctx& ctx, uint64_t& steps)
 static std::vector<std::vector<int>> gWriteLists;
 static std::vector<std::vector<int>> gPlans; // 8 entries each
 static int D = 2;
+static bool gDeep = false; // single writes, more deviations, reduced answer alphabet
 
 static void gen_plans()
 {
@@ -232,6 +233,8 @@ static void gen_plans()
         for (int i = from; i < 8; ++i)
             for (int a = 1; a < N_ANS; ++a)
             {
+                if (gDeep && a != A_ACC1 && a != A_HALF && a != A_BLOCK0)
+                    continue;
                 p[i] = a;
                 gPlans.push_back(p);
                 rec(i + 1, left - 1);
@@ -402,6 +405,7 @@ int main(int argc, char** argv)
     D                = opt.geti("D", 2);
     gReportBusyWait  = opt.geti("busywait", 0);
     bool thorough    = opt.geti("thorough", 0);
+    gDeep            = opt.geti("deep", 0);
     gFileDir         = "/var/tmp/c06-files";
     mkdir(gFileDir.c_str(), 0755);
     if (mode == "c07")
@@ -418,9 +422,10 @@ int main(int argc, char** argv)
     const int nk = sizeof kKinds / sizeof kKinds[0];
     for (int a = 0; a < nk; ++a)
         gWriteLists.push_back({ a });
-    for (int a = 0; a < nk; ++a)
+    for (int a = 0; a < nk && !gDeep; ++a)
         for (int b = 0; b < nk; ++b)
             gWriteLists.push_back({ a, b });
+    if (!gDeep)
     {
         std::vector<int> three = thorough ? std::vector<int> { 1, 2, 3, 5, 6 } : std::vector<int> { 1, 2, 5 };
         for (int a : three)
